@@ -230,12 +230,13 @@ def run_outcancel(case, res):
 
 def run_traverse_fn(case, res):
     F = instr.ME.futures
-    for n, bad in ((4, None), (4, 2), (1, 0), (6, 5), (0, None)):
+    for n, bad, exc_cls in ((4, None, None), (4, 2, UserErrorB), (1, 0, UserErrorB), (6, 5, UserErrorB), (0, None, None),
+                            (4, 2, StopIteration), (3, 0, StopIteration), (5, 4, StopIteration), (4, 1, KeyError)):
         begin("rt")
         ctx = Ctx()
         try:
             calls = []
-            e = UserErrorB("fn")
+            e = (exc_cls or UserErrorB)("fn")
             ins = [SpyFuture("t%d" % i) for i in range(n)]
 
             def fn(x):
@@ -260,7 +261,7 @@ def run_traverse_fn(case, res):
                     res.violation("traverse-fn-exception-lost", "%s: output is %s" % (label, outcome_repr(o)))
                 if calls != list(range(bad + 1)):
                     res.violation("traverse-fn-calls", "%s: fn called with %s" % (label, calls))
-            res.key("traverse_fn", n, bad)
+            res.key("traverse_fn", n, bad, getattr(exc_cls, "__name__", None))
         finally:
             end(ctx)
 
